@@ -627,7 +627,10 @@ Section IdDelivery.
   (* the oracle returns shortest paths of the graph (networkx's documented contract) *)
   Hypothesis sp_path : forall s p, sp' s = Some p -> path_to_t g_edge tname p s.
   Hypothesis sp_min : forall s p q, sp' s = Some p -> path_to_t g_edge tname q s -> (length p <= length q)%nat.
-  Hypothesis sp_complete : forall s q, path_to_t g_edge tname q s -> sp' s <> None.
+  Variable B : nat.
+  Hypothesis HB : (1 <= B)%nat.
+  Hypothesis sp_bound : forall s p, sp' s = Some p -> (length p <= B)%nat.
+  Hypothesis sp_complete : forall s q, path_to_t g_edge tname q s -> (length q <= B)%nat -> sp' s <> None.
   (* structure of the compiled graph: router names are unique and
      shortest paths from a router run through routers only *)
   Hypothesis Hnd : NoDup (map cr_name (c_rts c)).
@@ -636,7 +639,7 @@ Section IdDelivery.
   Lemma sp_target : sp' tname = Some [tname].
   Proof.
     assert (Hp : path_to_t g_edge tname [tname] tname) by (repeat split; cbn; auto; discriminate).
-    destruct (sp' tname) as [p|] eqn:E; [|exfalso; eapply sp_complete; eauto].
+    destruct (sp' tname) as [p|] eqn:E; [|exfalso; eapply (sp_complete tname [tname]); eauto].
     pose proof (sp_min _ _ _ E Hp) as Hl. pose proof (sp_path _ _ E) as Hq.
     destruct (path_head _ _ _ _ Hq) as (rest & ->). destruct rest; [reflexivity|cbn in Hl; lia].
   Qed.
@@ -652,7 +655,7 @@ Section IdDelivery.
       fold g tname in Hsp. change (sp g (cr_name r) tname) with (sp' (cr_name r)) in Hsp.
       rewrite Hhop, Hsp. f_equal.
       rewrite Hs in Hsp. inversion Hsp; subst p.
-      destruct (next_shorter g_edge tname sp' sp_path sp_min sp_complete (cr_name r) nxt rest _ Hs
+      destruct (next_shorter g_edge tname sp' sp_path sp_min B sp_bound sp_complete (cr_name r) nxt rest _ Hs
                   ltac:(destruct (path_head _ _ _ _ (sp_path _ _ Hs)) as (rr & Er); inversion Er; reflexivity))
         as (p' & Hn & Hlen).
       apply (IH nxt p'); [|exact Hn|cbn [length] in *; lia].
@@ -671,8 +674,37 @@ Section IdDelivery.
     length v = S k /\ last v (cr_name r) = tname /\ NoDup v.
   Proof.
     intros Hr Hs Hl. cbv zeta. rewrite (cwalk_is_follow k (cr_name r) p (or_introl (ex_intro _ r (conj Hr eq_refl))) Hs Hl).
-    destruct (follow_delivers g_edge tname sp' sp_path sp_min sp_complete k _ p Hs Hl) as (A & B & _ & _).
-    repeat split; auto. eapply follow_nodup; eauto.
+    destruct (follow_delivers g_edge tname sp' sp_path sp_min B sp_bound sp_complete k _ p Hs Hl) as (A1 & A2 & _ & _).
+    repeat split; auto. eapply (follow_nodup g_edge tname sp' sp_path sp_min B sp_bound sp_complete); eauto.
   Qed.
 End IdDelivery.
 
+
+(* ------------------------------------------------------------------ closed corollary with the verified reference oracle *)
+From FV Require Import RefOracle.
+
+Theorem id_tables_deliver_ref (c : compiled) (ri : rinfo) (t : cni) (id : Z) :
+  d_algo (c_desc c) = ID -> gen_routing_info sp_reference c = Ok ri -> In t (c_nis c) -> id_num (cn_id t) = Ok id ->
+  NoDup (map cr_name (c_rts c)) ->
+  (forall u p, is_router c u -> sp_reference (c_graph c) u (cn_name t) = Some p ->
+               forall x, In x (removelast p) -> is_router c x) ->
+  forall r p k, In r (c_rts c) -> sp_reference (c_graph c) (cr_name r) (cn_name t) = Some p -> length p = S k ->
+    let v := cwalk k c ri (cn_name t) id (cr_name r) in
+    length v = S k /\ last v (cr_name r) = cn_name t /\ NoDup v.
+Proof.
+  intros Ha Hr Ht Hid Hnd Htr.
+  apply (id_tables_deliver sp_reference c ri t id Ha Hr Ht Hid
+           (fun s p H => sp_ref_path (c_graph c) (cn_name t) s p H)
+           (fun s p q H Hq => sp_ref_min (c_graph c) (cn_name t) s p q H Hq)
+           (bound (c_graph c)) ltac:(unfold bound; lia)
+           (fun s p H => sp_ref_bound (c_graph c) (cn_name t) s p H)
+           (fun s q Hq Hl => sp_ref_complete (c_graph c) (cn_name t) s q Hq Hl) Hnd Htr).
+Qed.
+
+(* decidable forms of the structural hypotheses, for the non-vacuity examples *)
+Definition is_routerb (c : compiled) (u : string) : bool := existsb (fun r => str_eqb (cr_name r) u) (c_rts c).
+Definition transitb (sp : oracle) (c : compiled) (t : cni) : bool :=
+  forallb (fun r => match sp (c_graph c) (cr_name r) (cn_name t) with
+                    | Some p => forallb (is_routerb c) (removelast p)
+                    | None => false
+                    end) (c_rts c).
